@@ -54,6 +54,56 @@ theorem chain_ends_with_self (tpls : Array Tpl) (fuel i : Nat) : (chainOf tpls f
     simp only [chainOf]
     split <;> simp
 
+/-- what the `block` tag leaves behind in the current frame when its body is done: the name
+    `block` means the enclosing block again (or nothing) -/
+def unbindBlock (outer : Option Val) (s : ES) : ES :=
+  match s.frames with
+  | h :: t => { s with frames := { h with priv := match outer with
+                  | some o => h.priv.set b!"block" o
+                  | none => h.priv.filter (·.1 != b!"block") } :: t }
+  | [] => s
+
+/-- **A `block` tag renders the most-derived definition, through the interpreter.**  In any
+    state, executing the tag is executing the nodes of the last of the definitions found along the
+    frame's inheritance chain (by `block_most_derived`: the one of the most-derived template that
+    defines the name), with `block` bound to that level for the duration and unbound afterwards —
+    on success and on failure alike, output and error passed through unchanged. -/
+theorem block_tag_renders_most_derived (fuel : Nat) (name : Bytes) (σ : ES) (fr : Frame) (rest : List Frame)
+    (hσ : σ.frames = fr :: rest) (hws : (blockWrappers σ.cs.tpls fr.chain name).length ≠ 0) :
+    (execNode T cfg g (fuel + 1) (.tagBlock name)).run σ =
+      let ws := blockWrappers σ.cs.tpls fr.chain name
+      let σ₁ : ES := { σ with frames := { fr with priv := fr.priv.set b!"block" (.blockinfo fr.id name (ws.length - 1)) } :: rest }
+      match (execNodes T cfg g fuel (ws.getD (ws.length - 1) [])).run σ₁ with
+      | .ok _ σ₂ => .ok () (unbindBlock (fr.priv.lookup b!"block") σ₂)
+      | .error e σ₂ => .error e (unbindBlock (fr.priv.lookup b!"block") σ₂) := by
+  obtain ⟨frames, a, b, c, d, e, f⟩ := σ
+  simp only at hσ
+  subst hσ
+  have hws' : ((blockWrappers f.tpls fr.chain name).length == 0) = false := by simpa using hws
+  simp only [execNode, cur, modifyCur, EStateM.run, bind, EStateM.bind, get, getThe, MonadStateOf.get, EStateM.get,
+    pure, EStateM.pure, modify, modifyGet, MonadStateOf.modifyGet, EStateM.modifyGet, hws', Bool.false_eq_true, if_false,
+    tryCatch, tryCatchThe, MonadExceptOf.tryCatch, EStateM.tryCatch, EStateM.Backtrackable.save,
+    EStateM.Backtrackable.restore, EStateM.dummySave, EStateM.dummyRestore, throw, throwThe, MonadExceptOf.throw, EStateM.throw]
+  cases execNodes T cfg g fuel _ _ with
+  | ok u s => simp only [unbindBlock]; cases s.frames <;> rfl
+  | error err s => simp only [unbindBlock]; cases s.frames <;> rfl
+
+/-- **`block.Super` renders the next less-derived definition, to any depth.**  Inside the
+    definition at level `lvl > 0` of the chain of frame `fid`, `block.Super` is: render the
+    definition at level `lvl - 1` into a buffer of its own, in a child context in which `block`
+    names level `lvl - 1` (so a `block.Super` written there goes one level further down, and at
+    level 0 `super_at_base` ends the descent), and hand the text back as already-escaped markup. -/
+theorem super_renders_next_less_derived (fuel fid : Nat) (name : Bytes) (lvl : Nat) (σ : ES) (fr : Frame)
+    (hfr : σ.frames.find? (·.id == fid) = some fr) (hl : lvl ≠ 0) :
+    (callSuper T cfg g (fuel + 1) fid name lvl).run σ =
+      ((do
+        let out ← withFrame { childOf fr with priv := (childOf fr).priv.set b!"block" (.blockinfo fid name (lvl - 1)) }
+          (buffered (execNodes T cfg g fuel ((blockWrappers σ.cs.tpls fr.chain name).getD (lvl - 1) [])))
+        pure ⟨.str out, true⟩ : XM V).run σ) := by
+  have hl' : (lvl == 0) = false := by simpa using hl
+  simp only [callSuper, getFrame, hl', Bool.false_eq_true, if_false, EStateM.run, bind, EStateM.bind, get, getThe,
+    MonadStateOf.get, EStateM.get, hfr, pure, EStateM.pure]
+
 /-! ### non-vacuity -/
 example : (blockWrappers #[
       { name := b!"base", isString := false, nodes := [], blocks := [(b!"a", [.tagComment]), (b!"b", [])], parent := none,
